@@ -967,7 +967,14 @@ class Filter:
             if nullable == "unknown":
                 raise Unsupported(f"{fi.module.site(call)}: cannot tell whether the replacement `{short(w, 50)}` can be None")
             # one message object per replaced node: a message created outside the loop is one node under many parents
-            if isinstance(w, ast.AST) and hasattr(w, "lineno") and not (lp.lineno <= w.lineno <= lp.end_lineno) and not isinstance(w, (ast.Name, ast.Constant)):
+            reused = None
+            if isinstance(new, ast.Name):
+                assigns = {id(cfg.stmt_of(n)) for n in walk_local(lp) if isinstance(n, ast.Assign) and any(isinstance(t, ast.Name) and t.id == new.id for t in n.targets) and not (isinstance(n.value, ast.Constant) and n.value.value is None)}
+                if assigns and cfg.paths_avoiding(("T", lp), st_call, lambda n: id(n) in assigns):
+                    reused = next(n for n in walk_local(lp) if isinstance(n, ast.Assign) and id(cfg.stmt_of(n)) in assigns)
+            if reused is not None:
+                self.problems.append(("one-message-per-node", f"`{new.id}` is not assigned on every iteration (`{short(reused, 50)}` is conditional): the message object created for an earlier raw node is used again, so one system_message ends up under several parents and N refusals are reported once; docutils' FilterMessages then raises ValueError when report_level > 2", reused))
+            elif isinstance(w, ast.AST) and hasattr(w, "lineno") and not (lp.lineno <= w.lineno <= lp.end_lineno) and not isinstance(w, (ast.Name, ast.Constant)):
                 self.problems.append(("one-message-per-node", f"the replacement `{short(w, 60)}` is created once, outside the loop, and the same system_message object is put in place of every raw node: N refusals are reported by one warning, and a node that sits under several parents breaks docutils' message filtering (ValueError from FilterMessages when report_level > 2), aborting instead of processing the rest normally", w))
             else:
                 self.oks.append(("one-message-per-node", "the replacement is created inside the loop, once per raw node", call))
